@@ -150,26 +150,30 @@ def show(n):
 # Concrete symbols (element names an instance may use):
 #   a b c      elements of the target namespace used as leaves (local declarations, or refs to globals)
 #   h m n      substitution groups: head h with member m; abstract head habs with member n (global)
+#   y z        a deep substitution group: head y, abstract member ymid, member z of ymid (z substitutes y only
+#              through the abstract ymid).  The letters sort after every other symbol, so that shortest-first,
+#              alphabet-ordered witness searches are unchanged for models that do not use them.
 #   x          an undeclared name of the target namespace
 #   o          an element of another namespace (urn:o), globally declared there? no: undeclared
 #   l          an element in no namespace, undeclared
 TNS = 'urn:t'
 SYMBOL_XML = {
     'a': 't:a', 'b': 't:b', 'c': 't:c', 'h': 't:h', 'm': 't:m', 'n': 't:n', 'x': 't:x', 'o': 'o:x', 'l': 'x',
+    'y': 't:y', 'z': 't:z',
 }
 SYMBOL_TAG = {
     'a': '{urn:t}a', 'b': '{urn:t}b', 'c': '{urn:t}c', 'h': '{urn:t}h', 'm': '{urn:t}m', 'n': '{urn:t}n',
-    'x': '{urn:t}x', 'o': '{urn:o}x', 'l': 'x',
+    'x': '{urn:t}x', 'o': '{urn:o}x', 'l': 'x', 'y': '{urn:t}y', 'z': '{urn:t}z',
 }
-ALL_SYMBOLS = 'abchmnxol'
+ALL_SYMBOLS = 'abchmnxolyz'
 WILD = {
-    '~any': ('##any', frozenset('abchmnxol')),
+    '~any': ('##any', frozenset('abchmnxolyz')),
     '~other': ('##other', frozenset('o')),
-    '~tns': ('##targetNamespace', frozenset('abchmnx')),
+    '~tns': ('##targetNamespace', frozenset('abchmnxyz')),
     '~local': ('##local', frozenset('l')),
     # XSD 1.1 negative constraints (rendered as notNamespace; XSD 1.0 refuses them)
     '~notT': ('not:##targetNamespace', frozenset('ol')),
-    '~notL': ('not:##local', frozenset('abchmnxo')),
+    '~notL': ('not:##local', frozenset('abchmnxoyz')),
     '~notTL': ('not:##targetNamespace ##local', frozenset('o')),
 }
 
@@ -186,7 +190,9 @@ def el_ref(name, mn=1, mx=1):
     return ('el', mn, mx, frozenset([name]), '@' + name)
 
 
-def head(mn=1, mx=1, abstract=False):
+def head(mn=1, mx=1, abstract=False, deep=False):
+    if deep:
+        return ('el', mn, mx, frozenset('yz'), 'Hdeep')
     return ('el', mn, mx, frozenset('n') if abstract else frozenset('hm'), 'Habs' if abstract else 'H')
 
 
@@ -202,8 +208,8 @@ def leaf_xsd(n):
         if ns.startswith('not:'):
             return '<xs:any notNamespace="%s" processContents="lax"%s/>' % (ns[4:], occ)
         return '<xs:any namespace="%s" processContents="lax"%s/>' % (ns, occ)
-    if label in ('H', 'Habs'):
-        return '<xs:element ref="t:%s"%s/>' % ('h' if label == 'H' else 'habs', occ)
+    if label in ('H', 'Habs', 'Hdeep'):
+        return '<xs:element ref="t:%s"%s/>' % ({'H': 'h', 'Habs': 'habs', 'Hdeep': 'y'}[label], occ)
     if label.startswith('@'):
         return '<xs:element ref="t:%s"%s/>' % (label[1:], occ)
     if ':' in label:
@@ -212,6 +218,8 @@ def leaf_xsd(n):
             base = {'anon1': 'xs:string', 'anon2': 'xs:int', 'anon3': 'xs:string'}[typ]
             return ('<xs:element name="%s"%s><xs:simpleType><xs:restriction base="%s"/></xs:simpleType></xs:element>'
                     % (name, occ, base))
+        if typ == 'untyped':
+            return '<xs:element name="%s"%s/>' % (name, occ)
         return '<xs:element name="%s" type="xs:%s"%s/>' % (name, typ, occ)
     return None
 
@@ -222,7 +230,10 @@ SCHEMA_HEAD = ('<xs:schema xmlns:xs="http://www.w3.org/2001/XMLSchema" targetNam
                '<xs:element name="c" type="xs:string"/>\n'
                '<xs:element name="h" type="xs:string"/>\n<xs:element name="habs" type="xs:string" abstract="true"/>\n'
                '<xs:element name="m" type="xs:string" substitutionGroup="t:h"/>\n'
-               '<xs:element name="n" type="xs:string" substitutionGroup="t:habs"/>\n')
+               '<xs:element name="n" type="xs:string" substitutionGroup="t:habs"/>\n'
+               '<xs:element name="y" type="xs:string"/>\n'
+               '<xs:element name="ymid" type="xs:string" abstract="true" substitutionGroup="t:y"/>\n'
+               '<xs:element name="z" type="xs:string" substitutionGroup="t:ymid"/>\n')
 SCHEMA_TAIL = '</xs:schema>\n'
 
 
